@@ -610,11 +610,12 @@ impl AcctWorld {
                 self.stats.classes.insert("rename-folder".into());
             }
             Op::SetFlags { folder, flags } => {
-                let fi = self.pick_folder(*folder);
-                if self.model.folders[fi].builtin {
+                let user: Vec<usize> = self.model.folders.iter().enumerate().filter(|(_, f)| !f.builtin).map(|(i, _)| i).collect();
+                if user.is_empty() {
                     self.stats.skipped += 1;
                     return Ok(());
                 }
+                let fi = user[pick(*folder, user.len())];
                 let fid = self.model.folders[fi].id;
                 let fl = FLAG_CHOICES[(*flags % 4) as usize];
                 self.account
@@ -1236,9 +1237,9 @@ pub fn op_strategy(mix: Mix) -> BoxedStrategy<Op> {
         (2, any::<u16>().prop_map(|sec| Op::Unarchive { sec }).boxed()),
         (1, (any::<u16>(), spec_strategy()).prop_map(|(gone, spec)| Op::UpdateGone { gone, spec }).boxed()),
         (1, any::<u16>().prop_map(|gone| Op::DeleteGone { gone }).boxed()),
-        (2, (name_strategy(), 0u8..4).prop_map(|(name, flags)| Op::CreateFolder { name, flags }).boxed()),
+        (4, (name_strategy(), 0u8..4).prop_map(|(name, flags)| Op::CreateFolder { name, flags }).boxed()),
         (2, (any::<u16>(), name_strategy()).prop_map(|(folder, name)| Op::RenameFolder { folder, name }).boxed()),
-        (2, (any::<u16>(), 0u8..4).prop_map(|(folder, flags)| Op::SetFlags { folder, flags }).boxed()),
+        (3, (any::<u16>(), 0u8..4).prop_map(|(folder, flags)| Op::SetFlags { folder, flags }).boxed()),
         (2, (any::<u16>(), "[ -~]{0,30}|\\PC{0,8}").prop_map(|(folder, text)| Op::SetDescription { folder, text }).boxed()),
         (1, any::<u16>().prop_map(|folder| Op::DeleteFolder { folder }).boxed()),
     ];
